@@ -145,6 +145,21 @@ spec fn refs_txs(txs: Seq<Transaction>, n: int, o: OutPoint) -> int
 {
     if n <= 0 { 0 } else { refs_txs(txs, n - 1, o) + refs_tx(txs[n - 1], o) }
 }
+// C01/C05/C20: the outpoints a block ADDS to address a — its outputs whose script is that address's, in block order (transaction order, then vout)
+spec fn outs_for(tx: Transaction, k: int, n: Network, a: Address) -> Seq<OutPoint>
+    decreases k
+{
+    if k <= 0 { Seq::empty() } else {
+        outs_for(tx, k - 1, n, a) + (if address_of_script(tx.outs@[k - 1].script_pubkey.bytes(), n) == Some(a) { seq![OutPoint { txid: tx.id, vout: (k - 1) as u32 }] } else { Seq::<OutPoint>::empty() })
+    }
+}
+spec fn added_for(txs: Seq<Transaction>, t: int, n: Network, a: Address) -> Seq<OutPoint>
+    decreases t
+{
+    if t <= 0 { Seq::empty() } else { added_for(txs, t - 1, n, a) + outs_for(txs[t - 1], txs[t - 1].outs@.len() as int, n, a) }
+}
+// the list a per-address map holds for a (empty if the address is unknown)
+spec fn lst(m: Map<Address, Vec<OutPoint>>, a: Address) -> Seq<OutPoint> { if m.contains_key(a) { m[a]@ } else { Seq::empty() } }
 // the number of non-coinbase transactions among the first n
 spec fn non_coinbase(txs: Seq<Transaction>, n: int) -> int
     decreases n
@@ -238,6 +253,8 @@ proof fn lemma_bound_out(block: &Block, t: int, n: int, o: OutPoint)
 //@|         &&& r matches Ok(vp_m) && vp_m.fee_rates@.len() <= non_coinbase(block.txs@, block.txs@.len() as int)
 //@|         &&& forall|o: OutPoint| cnt(final(cache).tx_outs@, o) == cnt(old(cache).tx_outs@, o) + #[trigger] refs_block(*block, o)
 //@|         &&& final(cache).added_outpoints@.dom() =~= old(cache).added_outpoints@.dom().insert(block.hash)
+//@|         // the delta recorded for an address lists exactly the block's outputs that pay it, in block order
+//@|         &&& forall|a: Address| #[trigger] lst(final(cache).added_outpoints@[block.hash]@, a) =~= added_for(block.txs@, block.txs@.len() as int, utxos.network, a)
 //@|         &&& final(cache).removed_outpoints@.dom() =~= old(cache).removed_outpoints@.dom().insert(block.hash)
 //@|     },
 //@ start
@@ -249,6 +266,7 @@ proof fn lemma_bound_out(block: &Block, t: int, n: int, o: OutPoint)
 //@|     forall|o: OutPoint| #[trigger] tx_outs@.contains_key(o) ==> tx_outs@[o].count >= 1,
 //@|     forall|o: OutPoint| cnt(old(cache).tx_outs@, o) + #[trigger] refs_block(*block, o) <= u32::MAX,
 //@|     -0x1000_0000 * it.index@ <= utxo_delta <= 0x1000_0000 * it.index@,
+//@|     forall|a: Address| #[trigger] lst(added_outpoints@, a) =~= added_for(block.txs@, it.index@ as int, utxos.network, a),
 //@|     // C15: at most one fee rate per NON-coinbase transaction (a coinbase never contributes)
 //@|     fee_rates@.len() <= non_coinbase(block.txs@, it.index@ as int),
 //@|     block.txs@.len() < 0x1000_0000,
@@ -258,6 +276,7 @@ proof fn lemma_bound_out(block: &Block, t: int, n: int, o: OutPoint)
 //@ loop 2 binder=it2
 //@| invariant
 //@|     opc_keys_ok(), *cache == *old(cache), 0 <= it.index@ < block.txs@.len(), *tx == block.txs@[it.index@ as int],
+//@|     forall|a: Address| #[trigger] lst(added_outpoints@, a) =~= added_for(block.txs@, it.index@ as int, utxos.network, a),
 //@|     forall|o: OutPoint| cnt(tx_outs@, o) == #[trigger] refs_txs(block.txs@, it.index@ as int, o) + refs_ins(tx.ins@, it2.index@ as int, o),
 //@|     forall|o: OutPoint| #[trigger] tx_outs@.contains_key(o) ==> tx_outs@[o].count >= 1,
 //@|     forall|o: OutPoint| cnt(old(cache).tx_outs@, o) + #[trigger] refs_block(*block, o) <= u32::MAX,
@@ -265,11 +284,24 @@ proof fn lemma_bound_out(block: &Block, t: int, n: int, o: OutPoint)
 //@| invariant
 //@|     opc_keys_ok(), *cache == *old(cache), 0 <= it.index@ < block.txs@.len(), *tx == block.txs@[it.index@ as int],
 //@|     vp_i == it3.index@, tx.outs@.len() < 0x1000_0000,
+//@|     forall|a: Address| #[trigger] lst(added_outpoints@, a) =~= added_for(block.txs@, it.index@ as int, utxos.network, a) + outs_for(*tx, it3.index@ as int, utxos.network, a),
 //@|     forall|o: OutPoint| cnt(tx_outs@, o) == #[trigger] refs_txs(block.txs@, it.index@ as int, o) + refs_ins(tx.ins@, tx.ins@.len() as int, o) + refs_outs(*tx, it3.index@ as int, o),
 //@|     forall|o: OutPoint| #[trigger] tx_outs@.contains_key(o) ==> tx_outs@[o].count >= 1,
 //@|     forall|o: OutPoint| cnt(old(cache).tx_outs@, o) + #[trigger] refs_block(*block, o) <= u32::MAX,
+//@ loopstart 3
+//@| proof { assert(*txout == tx.outs@[it3.index@ as int]); }
+//@| let ghost vp_ab = added_outpoints@;
+//@ loopbodyend 3
+//@| proof {
+//@|     assert forall|a: Address| #[trigger] lst(added_outpoints@, a) =~= added_for(block.txs@, it.index@ as int, utxos.network, a) + outs_for(*tx, it3.index@ as int + 1, utxos.network, a) by {
+//@|         assert(lst(vp_ab, a) =~= added_for(block.txs@, it.index@ as int, utxos.network, a) + outs_for(*tx, it3.index@ as int, utxos.network, a));
+//@|     }
+//@| }
 //@ loopend 3
 //@| proof {
+//@|     assert forall|a: Address| #[trigger] lst(added_outpoints@, a) =~= added_for(block.txs@, it.index@ as int + 1, utxos.network, a) by {
+//@|         assert(lst(added_outpoints@, a) =~= added_for(block.txs@, it.index@ as int, utxos.network, a) + outs_for(*tx, tx.outs@.len() as int, utxos.network, a));
+//@|     }
 //@|     // (the fee-rate computation that follows does not touch the counts)
 //@|     assert forall|o: OutPoint| cnt(tx_outs@, o) == #[trigger] refs_txs(block.txs@, it.index@ as int + 1, o) by {
 //@|         assert(cnt(tx_outs@, o) == refs_txs(block.txs@, it.index@ as int, o) + refs_ins(tx.ins@, tx.ins@.len() as int, o) + refs_outs(*tx, tx.outs@.len() as int, o));
